@@ -330,6 +330,16 @@ class SerdesTopo(TopoModel):
                 t4 = cls(graph_string=text)
                 if t4.graph_model.graph_id != gid:
                     v.append((f'graph-id/{fmt.name}/topology-ctor', f'{t4.graph_model.graph_id} {ctx}'))
+                # history: the object that already HOLDS the model loads its text again (same id) - from text, then from a file
+                t4.load(graph_string=text)
+                if stored('shared', gid)[0] != want[0]:
+                    v.append((f'content/{fmt.name}/topology-reload-same-object', f'after t.load(graph_string=t.serialize()): {_diff(want[0], stored("shared", gid)[0])} {ctx}'))
+                with tempfile.NamedTemporaryFile('w', suffix='.graph', encoding='utf-8') as f:
+                    f.write(text)
+                    f.flush()
+                    t4.load(file_name=f.name)
+                if stored('shared', gid)[0] != want[0] or sorted(t4.nodes.keys()) != sorted(set(self._names(raw))):
+                    v.append((f'content/{fmt.name}/topology-reload-same-object-file', f'after loading its own file again the object lists {sorted(t4.nodes.keys())} {ctx}'))
                 # the same text goes into the per-graph store
                 world.reset_disjoint()
                 g5 = world.disjoint_importer().import_graph_from_string(graph_string=text, graph_id='DJ')
